@@ -300,14 +300,14 @@ def m_run_check(out, mc, results):
 
 def build_check_bin():
     env = dict(os.environ)
-    env["CARGO_TARGET_DIR"] = "/verif/.build/native-repo"
+    env["CARGO_TARGET_DIR"] = os.path.join(os.environ.get("VERIF_ROOT", "/verif"), ".build", "native-repo")
     env["CARGO_NET_OFFLINE"] = "true"
     env.pop("RUSTFLAGS", None)
-    os.makedirs("/verif/.build/logs", exist_ok=True)
-    with open("/verif/.build/logs/emmylua_check.build.log", "w") as log:
+    os.makedirs(os.path.join(os.environ.get("VERIF_ROOT", "/verif"), ".build", "logs"), exist_ok=True)
+    with open(os.path.join(os.environ.get("VERIF_ROOT", "/verif"), ".build", "logs", "emmylua_check.build.log"), "w") as log:
         r = subprocess.run(["cargo", "build", "--offline", "-p", "emmylua_check"], cwd="/repo", env=env, stdout=log,
                            stderr=subprocess.STDOUT, timeout=3600)
-    exe = "/verif/.build/native-repo/debug/emmylua_check"
+    exe = os.path.join(os.environ.get("VERIF_ROOT", "/verif"), ".build", "native-repo", "debug", "emmylua_check")
     return exe if r.returncode == 0 and os.path.exists(exe) else None
 
 
